@@ -38,6 +38,12 @@ def handle (st : DState) (kw : String) (toks : List Nat) : DState × String :=
     match run (pair (list custom) (pair importCfg afile)) toks with
     | none => (st, "bad-case")
     | some (t, (cfg, lock)) =>
+      -- order of the real command: the offline store is validated (own table, `implies`,
+      -- criteria-map targets) before anything is fetched
+      let emptyStore : Store := { imports := [], locals := ⟨[], []⟩, trusted := [], publishers := [],
+                                  unpublished := [], exemptions := [], policy := [] }
+      let mt := cfg.sources.flatMap (fun p => p.cmap.map (·.2))
+      if !(validate t emptyStore 0 false [] [] mt).isEmpty then (st, "refused-by-validate") else
       (st, match Mapper.new t with
         | .error e => panicLine e
         | .ok lm =>
@@ -147,13 +153,13 @@ def handle (st : DState) (kw : String) (toks : List Nat) : DState × String :=
               | o => "ok " ++ show_ (outcomeToks o)))
         | none => (st, "bad-case")
       | "validate" =>
-        match run (pair (pair nat bool) (pair (list (pair nat (list nat))) (list nat))) toks with
+        match run (pair (pair nat bool) (pair (pair (list (pair nat (list nat))) (list nat)) (list (list nat)))) toks with
         | none => (st, "bad-case")
-        | some ((maxEnd, locked), (ci, ln)) =>
-          let errs := validate w.table w.store maxEnd locked ci ln
+        | some ((maxEnd, locked), ((ci, ln), mt)) =>
+          let errs := validate w.table w.store maxEnd locked ci ln mt
           (st, if errs.isEmpty then "ok" else "refused " ++ show_ [errs.length,
             (errs.filter (· == .invalidCriteria)).length, (errs.filter (· == .badWildcardEndDate)).length,
-            (errs.filter (· == .importsLockOutdated)).length])
+            (errs.filter (· == .importsLockOutdated)).length, (errs.filter (· == .invalidCriteriaTable)).length])
       | "update" =>
         match run modeTable toks with
         | none => (st, "bad-case")
